@@ -245,7 +245,9 @@ SPECS = {
         "level_text": 'Generated (string set, overhead, cut size, thread count 2..8, schedule) cases: the HASHRPDACBlocks constructor runs under the deterministic scheduler, every synchronisation call being a scheduling point steered by the generated schedule (random or PCT-style priorities); its image must equal the single-thread image byte for byte, every ID must extract and the extracted strings must be the input set.',
         "level_note": SCHED_NOTE, "technique": "schedule-generating property-based testing: deterministic scheduler (pthread interposition) + rapidcheck, differential against the single-thread build", "family": "sched",
         "engine": "rapidcheck bytes -> (case, schedule); sched/vsched.cpp owns the interleaving; each case in a forked child",
-        "stages": sched_stages("C09", 500, 700, floors={"blocks_ge2": 100, "blocks_ge4": 30, "threads_ge3": 100}, nontrivial_floor=100, thorough_mult=15),
+        "stages": (lambda tier: sched_stages("C09", 500, 700, floors={"blocks_ge2": 100, "blocks_ge4": 30, "threads_ge3": 100}, nontrivial_floor=100, thorough_mult=15)(tier)
+                   + [{"name": "native", "binary": "native_rc", "plan": [(0, 30 * (10 if tier == "thorough" else 1), 60)] * 16,
+                       "label_floors": {"blocks_ge1000": 20}, "nontrivial_floor": 100, "nondeterministic": True}]),
         "rule": "case = (S of 3..600 strings, overhead, cut, threads, schedule bytes); non-trivial = >=2 blocks and >=1 pre-emption of a "
                 "runnable thread at a synchronisation point; distinct = hash of the case bytes",
         "assumptions": ["a deadlock under a generated schedule is C10's event; for C09 the case is inconclusive",
@@ -261,12 +263,12 @@ SPECS = {
         "assumptions": ["tasks are never added after stop (the statement covers tasks handed over before the stop)"],
     },
     "C11": {
-        "level_text": 'Generated multi-block HASHRPDACBlocks builds (2-8 blocks of 8-60 KB, 2/3/4/8 worker threads, generated cut and overhead) and WorkerPool runs (2-4 workers, 1-40 tasks with private busy work, three producer protocols) executed with real threads under ThreadSanitizer; every data-race report is an event.',
+        "level_text": 'Generated multi-block HASHRPDACBlocks builds (2-8 blocks of 8-60 KB, or 30-4000 blocks of one to a few strings so that workers finish while the producer is still queueing; 2/3/4/8 worker threads, generated cut and overhead) and WorkerPool runs (2-4 workers, 1-40 tasks with private busy work, three producer protocols) executed with real threads under ThreadSanitizer; every data-race report is an event.',
         "level_note": "Trusted base: clang 14 ThreadSanitizer (happens-before detection on the schedules the OS produced in this run), harness/race_case.cpp. A race that no executed schedule exhibits stays unseen; overlap of tasks is measured (label tasks_overlapped) but never used for a verdict.",
         "technique": "generated-input campaign with ThreadSanitizer as the oracle (dynamic race detection)", "family": "race",
         "engine": "rapidcheck bytes -> (build | pool) scenario; TSan build of /repo; real threads",
         "stages": (lambda tier: [{"name": "race", "binary": "race_rc", "plan": [(i % 2, (60 if i % 2 == 0 else 800) * (10 if tier == "thorough" else 1), 200) for i in range(16)],
-                                  "label_floors": {"tasks_overlapped": 50, "blocks_ge4": 10}, "nontrivial_floor": 100}]),
+                                  "label_floors": {"tasks_overlapped": 50, "blocks_ge4": 10, "blocks_ge100": 10}, "nontrivial_floor": 100, "nondeterministic": True}]),
         "rule": "case = parallel build (strings, cut, threads, overhead) or pool run (workers, tasks, protocol, per-task work); "
                 "non-trivial = >=2 blocks with >=2 threads | >=2 workers and >=2 tasks; distinct = hash of the case bytes",
         "assumptions": ["lock-order inversion reports are listed but are not violations of C11's text"],
